@@ -201,6 +201,8 @@ EvAll(e, L) ==
     [] e.x = "attrslen" -> { [r |-> LET i == AttrsFrame(Len(ctl)) IN
                                     IF i = 0 THEN Exc("NameError") ELSE VInt(Len(items[i].sattr)), ev |-> <<>>] }
     [] e.x = "wrap"  -> EvAll(e.e, L)      \* lambda / comprehension / conditional ...: identity
+    \* (n := E): the value of E; written as a whole interpolation it also binds the template variable n (KText)
+    [] e.x = "asg"   -> EvAll(e.e, L)
     \* sorted(E.keys()): attribute lookup comes first, so a key named like a
     \* method of the dictionary does not hide the method
     [] e.x = "skeys" -> { [r |-> IF IsExc(a.r) THEN a.r
@@ -425,7 +427,10 @@ KText ==    \* visit_Text / visit_Interpolation, one part per step
                          /\ out' = IF a.r.t = "none" THEN out
                                    ELSE Append(out, [a |-> "val", v |-> a.r, esc |-> "text", i |-> F.c, p |-> F.j])
                          /\ UNCHANGED exc
-                 /\ UNCHANGED <<envs, glob, rep, cells, res>>
+                 \* an assignment expression binds its target in the variable scope, like a code block: nothing is
+                 \* restored, except by the element (if any) that defines the same name locally
+                 /\ envs' = IF p.x = "asg" /\ ~IsExc(a.r) THEN SetLocal(envs, p.n, a.r) ELSE envs
+                 /\ UNCHANGED <<glob, rep, cells, res>>
   /\ UNCHANGED <<pid, mx>>
 
 KCode ==    \* visit_CodeBlock: <?python n = expr ?> assigns in the variable scope; nothing is restored
